@@ -242,9 +242,21 @@ def check(prop: str, tier: str, seed: int, only: Optional[str] = None) -> int:
                     functions.update(nat.get("functions", []))
                     if len([s for s in samples if isinstance(s, dict) and s.get("harness") == hn]) < 3:
                         samples.append({"witness": w, "harness": hn})
+                elif nat.get("pre") is True and "error" not in nat:
+                    # The solver said this in-bounds input satisfies the relation, the real interpreter says it does not:
+                    # CrossHair's execution diverged from CPython (e.g. a cache that is inert under the tracer). The native
+                    # run is a run of the real code on a concrete in-bounds input, so it is reported as what it is.
+                    mismatches += 1
+                    path = write_replay(prop, hmap[hn], module, tier, w, nat)
+                    violations += 1
+                    exit_code = 1
+                    samples.append({"violation": w, "harness": hn, "native": nat.get("exception") or "returned False", "found_by": "native witness cross-check"})
+                    lines.append(f"VIOLATION property={prop} replay={path}")
+                    lines.append(f"  harness={hn} args={json.dumps(w)} native={'raised ' + nat['exception'] if nat.get('exception') else 'returned False'} "
+                                 f"(symbolic execution passed this input; found by the native witness cross-check)")
                 else:
                     mismatches += 1
-                    harness_errors.append(f"{hn}: witness {w} does not hold natively: {nat}")
+                    harness_errors.append(f"{hn}: witness {w} could not be checked natively: {nat}")
     missing = sorted({t for h in hs for t in h.targets} - functions) if witnesses else []
 
     printed = set()
